@@ -68,7 +68,7 @@ macro_rules! with_bounds {
 ///   * stack empty, or stack depth == key buffer length + 1 (lock step)
 ///   * frame d holds the automaton state reached after consuming key_buffer[..d]
 /// Returns the emitted (key, value, state) triples or a description of the broken invariant.
-pub fn monitored<D: AsRef<[u8]>, A>(fst: &Fst<D>, aut: A, lo: &Lo, hi: &Hi, runner: &dyn Fn(&[u8]) -> A::State, checks: &mut u64) -> Result<Vec<(Vec<u8>, u64, A::State)>, String>
+pub fn monitored<D: AsRef<[u8]>, A>(fst: &Fst<D>, aut: A, lo: &Lo, hi: &Hi, runner: &dyn Fn(&[u8]) -> A::State, checks: &mut u64) -> Result<(Vec<(Vec<u8>, u64, A::State)>, Option<String>), String>
 where
     A: Automaton,
     A::State: Clone + PartialEq + std::fmt::Debug,
@@ -76,18 +76,24 @@ where
     let mut s = with_bounds!(fst.search_with_state(aut), lo, hi).into_stream();
     let mut out = vec![];
     let mut steps = 0usize;
+    // the first breach of an internal invariant; it is a diagnosis attached to an output violation, not a verdict:
+    // the statement speaks about the stream's output, and a different (correct) traversal could keep other invariants
+    let mut breach: Option<String> = None;
     loop {
-        {
+        if breach.is_none() {
             let (inp, frames) = s.verif_frames();
             *checks += 1;
             if !frames.is_empty() {
                 if frames.len() != inp.len() + 1 {
-                    return Err(format!("lock-step broken after {} next() calls: stack depth {} but key buffer length {}", steps, frames.len(), inp.len()));
+                    breach = Some(format!("lock-step broken after {} next() calls: stack depth {} but key buffer length {}", steps, frames.len(), inp.len()));
                 }
                 for (d, fr) in frames.iter().enumerate() {
+                    if breach.is_some() {
+                        break;
+                    }
                     let want = runner(&inp[..d]);
                     if *fr.2 != want {
-                        return Err(format!(
+                        breach = Some(format!(
                             "frame {} holds automaton state {:?} but the automaton run on key-buffer[..{}]={} gives {:?} (after {} next() calls)",
                             d,
                             fr.2,
@@ -113,7 +119,7 @@ where
     if s.next().is_some() {
         return Err("stream yields an entry after it ended".into());
     }
-    Ok(out)
+    Ok((out, breach))
 }
 
 /// lower-bound class decided from the input alone
